@@ -100,7 +100,7 @@ func checkSem(c *core.Ctx, sp semProp) error {
 			if b.K == sp.obsKind {
 				ndrift++
 				if ndrift <= 3 {
-					c.Drift(fmt.Sprintf("%s %s: %s; e.g. pool[%d] vs pool[%d], differing in %v", b.ID, r.ByID[b.ID].T.String(), b.Law, b.I, b.J, b.Diff))
+					c.Drift(fmt.Sprintf("%s %s: %s; e.g. pool[%d] vs pool[%d], differing in %v", b.ID, r.ByID[b.ID].T.String(), strings.TrimPrefix(b.Law, "DRIFT: "), b.I, b.J, b.Diff))
 				}
 			}
 			continue
